@@ -127,7 +127,7 @@ def canon_trace(line):
         if tok[0] == "s" and t == 8 and sid == "0" and not seen_wu:
             seen_wu = True; continue
         if t == 1: ln = "0"
-        keep_a = t in (3, 7, 8) or (t == 4 and tok[0] == "c" and not fl & 1)
+        keep_a = t in (7, 8) or (t == 3 and tok[0] == "s") or (t == 4 and tok[0] == "c" and not fl & 1)     # (the model has one RST_STREAM event for every error code a client may give)
         out.append((tok[0], t, fl, sid, ln, a if keep_a else "x", a2 if t == 7 else "x"))
     return out
 
